@@ -197,7 +197,14 @@ def _setup(ctx, state):
 
     g = ctx.spec["grid"]
     tf = BeckeRTransform(g["rmin"], g["R"])
-    rule = GaussLegendre if g["rule"] == "gl" else GaussChebyshev
+    if g["rule"] in ("trap", "cc"):
+        # closed rules: the first radial node is r = 0 exactly (a whole shell on the nucleus), the last one is "infinity"
+        from grid.onedgrid import ClenshawCurtis, Trapezoidal
+
+        rule = Trapezoidal if g["rule"] == "trap" else ClenshawCurtis
+        ctx.probes.hit("radial-grid-with-a-shell-at-r=0")
+    else:
+        rule = GaussLegendre if g["rule"] == "gl" else GaussChebyshev
     rad = g.get("radial") or ["becke"]
     if rad[0] == "becke":
         rg = tf.transform_1d_grid(rule(g["nr"]))
@@ -447,7 +454,9 @@ def _op_solve(ctx, op, state):
     if oc[0] == "ok" and (bseed + ctx.step) % 6 == 0:
         # how many points the caller asks for in ONE call is the caller's business: none, one, thousands, a whole cube.
         # The value at a point must not depend on the company it is evaluated in.
-        nbig = (0, 1, 3000, 140000 if "mol" not in ctx.spec else 9000)[(bseed // 6) % 4]
+        ag0 = g.atgrids[0] if hasattr(g, "atgrids") else g
+        # (... or exactly as many as the atomic grid itself has: evaluating one grid's potential on another grid of the same size)
+        nbig = (0, 1, 3000, 140000 if "mol" not in ctx.spec else 9000, int(ag0.size), int(ag0.size))[(bseed // 6) % 6]
         cc = np.atleast_2d(np.asarray(c, dtype=float))[0]
         big = cc + np.random.RandomState(bseed + 17).uniform(-3.0, 3.0, size=(nbig, 3))
         ob = _outcome(lambda: np.asarray(held["pot"](big), dtype=float))
@@ -907,8 +916,16 @@ class PoissonSeamEngine:
             # an explicit boundary value other than the natural one, with a modest outer radius so that the shift shows
             opts = {"boundary_scale": rng.choice([0.0, 0.0, 0.5, 2.0]), "remove_large_pts": rng.choice([20.0, 30.0])}
             grid["far_inside"] = True
+        if rng.random() < 0.2:
+            grid["rule"], grid["rmin"] = rng.choice(["trap", "cc"]), 0.0
+            opts.pop("include_origin", None)
+            if "boundary_scale" in opts:
+                opts.clear()  # (an explicit boundary value at a modest outer radius needs nodes there: the closed rules have few)
+                grid.pop("far_inside", None)
+            if "remove_large_pts" in opts and opts["remove_large_pts"] is None:
+                opts["remove_large_pts"] = 1e6  # (keeping the node at "infinity" (1e16) in the radial ODE mesh does not converge: the library says so)
         grid["opts"] = opts
-        if not ptype and rng.random() < 0.3:
+        if not ptype and rng.random() < 0.3 and grid["rule"] == "gl":
             # other radial grids / other maps for the radial ODEs (spherically symmetric densities only: the l > 0 channels
             # do not converge through the identity map), and probes beyond a modest cut-off radius
             if rng.random() < 0.5:
